@@ -313,6 +313,13 @@ namespace cds { namespace intrusive {
                 }
             }
 
+            void skip_deleted()
+            {
+                // a node whose next pointer is marked is logically deleted (it may still be linked)
+                while ( m_pNode && node_traits::to_node_ptr( *m_pNode )->m_pNext.load( memory_model::memory_order_acquire ).bits())
+                    next();
+            }
+
             iterator_type( atomic_node_ptr const& pNode )
             {
                 for (;;) {
@@ -327,6 +334,7 @@ namespace cds { namespace intrusive {
                     if ( cds_likely( p == pNode.load(memory_model::memory_order_acquire)))
                         break;
                 }
+                skip_deleted();
             }
 
         public:
@@ -361,6 +369,7 @@ namespace cds { namespace intrusive {
             iterator_type& operator ++()
             {
                 next();
+                skip_deleted();
                 return *this;
             }
 
